@@ -413,8 +413,7 @@ def _r3(repo, L, idx, store: Func, roles):
                 try:
                     fs, fe = as_lin(hs["_start"]), as_lin(hs["_end"])
                 except (KeyError, NotNumeric):
-                    bad = bad or (r, "fragment coordinates are not integer forms")
-                    continue
+                    raise AnalysisError("the coordinates of the fragment built for a run are not linear integer forms: no verdict")
                 if fs != s_atom + 1 or fe != e_atom:
                     bad = bad or (r, f"run {k} (0-based half-open [{s_atom}, {e_atom})) becomes fragment {fs}..{fe}; expected 1-based inclusive {s_atom + 1}..{e_atom}")
                 nm = hs.get("_name")
@@ -610,8 +609,7 @@ def _r4(repo, L, idx, proc: Func, roles):
         try:
             s_, e_ = as_lin(r.env[sv]), as_lin(r.env[ev])
         except (KeyError, NotNumeric):
-            ok, why = False, "run offsets are not integer forms"
-            continue
+            raise AnalysisError("the offsets of a pushed run are not linear integer forms: no verdict")
         s_off = s_ - C
         e_off = e_ - C
         if not (len(s_off.t) == 1 and f"{mv}.start" in str(list(s_off.t)[0]) and s_off.c == 0):
@@ -900,6 +898,12 @@ def _r6(repo, L, idx, store: Func, roles):
             key = [n for n in walk_shallow(li.node) if isinstance(n, ast.Assign) and isinstance(n.targets[0], ast.Subscript) and _is_ctor(n.value)]
             ok = args == names[1:] and bool(key) and norm(key[0].targets[0].slice) == names[0]
             why = f"loader unpacks {names} and builds FastaInfo({', '.join(args)})"
+            # refuted only by columns passed in another order or an entry keyed by another column; anything else is a form the
+            # rule does not read
+            swapped = args != names[1:] and sorted(args) == sorted(names[1:])
+            wrong_key = bool(key) and norm(key[0].targets[0].slice) in names[1:]
+            if not ok and not swapped and not wrong_key:
+                raise AnalysisError(f"FastaIndex.load_index: how the unpacked .fai columns reach FastaInfo(...) and the index dictionary is not a form understood ({why})")
     if not ok and why == "load_index structure not recognised":
         raise AnalysisError("FastaIndex.load_index: how a .fai line is unpacked and turned into a FastaInfo is not a form understood")
     L.check(ok, "R6", "FastaIndex.load_index", "columns 2..5 passed to FastaInfo in file order, keyed by column 1", why, li.loc() if li else "")
